@@ -70,9 +70,12 @@ Fixpoint rus_loop (reads : list phys_read) (ln : string) (last : ascii) (is_pref
   if is_prefix || negb (is_semi last) then
     match reads with
     | [] =>
-      (* ReadLine: nil, false, io.EOF; ln unchanged, the scan is done once more *)
+      (* ReadLine: nil, false, io.EOF; ln unchanged, the scan is done once more.
+         After the loop (fix b303e0a): if err == io.EOF && lastChar == ';' { err = nil } --
+         the input ended right after a chunk that filled the buffer; the tree is complete
+         and the end of file is for the next call *)
       match last_char ln last with
-      | ScanOk _ => REof ln
+      | ScanOk c => if is_semi c then RLine ln [] else REof ln
       | ScanPanic => RPanic
       | ScanFuel => RFuel
       end
